@@ -87,11 +87,30 @@ class Names:
     def __init__(self, pool, avoid=None):
         self.pool = pool
         self.avoid = avoid or {}
+        # prefixes the templates put in front of field names (derived from the harvest: harvested identifiers that end
+        # with one of the neutral field names), with and without their leading underscore
+        pre = set()
+        for ident in pool:
+            for n in G.FIELD_NAMES:
+                if ident.endswith(n) and len(ident) > len(n):
+                    pre.add(ident[:-len(n)])
+        self.prefixes = sorted(pre | {p[1:] for p in pre if p.startswith("_") and len(p) > 1} | {"_"})
+        self.recent = []
         self.lower = [p for p in pool]
         self.lifetimes = ["'f", "'state", "'other", "'builder", "'_0", "'educe__f", "'H", "'source"]
 
     def field(self, rng):
-        return rng.choice(self.pool)
+        # half of the time a name derived from a sibling's name by a template prefix (`x` next to `o_x`, `_s_x`, ...)
+        if self.recent and rng.random() < 0.5:
+            n = rng.choice(self.prefixes) + rng.choice(self.recent)
+        elif rng.random() < 0.3:
+            n = rng.choice(["a", "b", "x", "k"])
+        else:
+            n = rng.choice(self.pool)
+        if n in KEYWORDS or n == "_" or re.fullmatch(r"_*\d.*", n) and not re.fullmatch(r"_+\d+", n):
+            n = rng.choice(self.pool)
+        self.recent = (self.recent + [n])[-3:]
+        return n
 
     def variants(self, rng, n):
         return rng.sample(self.pool, n)
